@@ -90,6 +90,8 @@ def theorems_in(path):
 
 def coqc(vfile, cwd=None, timeout=600, extra=()):
     cmd = ["timeout", str(timeout), "coqc", "-Q", TH, "UV", "-w", "-notation-overridden"] + list(extra) + [vfile]
+    # big list literals in generated cases files make coqc recurse deeply: lift the stack limit for this process
+    cmd = ["bash", "-c", 'ulimit -s unlimited 2>/dev/null || ulimit -s 4000000 2>/dev/null; exec "$@"', "--"] + cmd
     return sh(cmd, cwd=cwd, timeout=timeout + 30)
 
 
